@@ -419,7 +419,12 @@ def check(rep, tier, seed, driver):
             cases.append({"spec": spec, "ops": ops, "mode": "fixed"})
         elif r == 2:
             spec = c15.gen_spec(rng, tier)
-            ops = c15.gen_ops(rng, spec, rng.randint(3, 12 if tier == "quick" else 30))
+            sliver = (k // 4) % 2 == 0
+            if sliver:   # boundaries that move by less than epsilon between remaps, elites in the slivers (float64 only)
+                spec["dtype"] = "d"
+                spec["remap_frequency"] = rng.choice([2, 3, 4])
+                spec["dims"] = [rng.choice([2, 3, 4]) for _ in spec["dims"]]
+            ops = c15.gen_ops(rng, spec, rng.randint(3, 12 if tier == "quick" else 30), force_sliver=sliver)
             cases.append({"spec": spec, "ops": ops, "mode": "sliding"})
         else:
             c = prox_case(rng)
